@@ -2,6 +2,7 @@ package wl
 
 import (
 	"bytes"
+	"crypto/hmac"
 	"crypto/sha256"
 	"crypto/sha512"
 	"encoding/hex"
@@ -72,6 +73,7 @@ type Model struct {
 	Order   []string
 	Exports []*Export
 	Issued  map[string]string // pubkey hex -> keystore id, every key ever issued by this wallet (for uniqueness)
+	Deleted [][]byte          // seeds of keystores that were deleted (a keystore may legitimately be created from them again)
 }
 
 func (m *Model) Snap() Snap {
@@ -102,8 +104,8 @@ func (m *Model) remove(id string) {
 // Op is one step of a history.
 type Op struct {
 	Kind     string `json:"op"`
-	K        int    `json:"k,omitempty"`  // keystore selector
-	N        int    `json:"n,omitempty"`  // number of addresses / key selector
+	K        int    `json:"k,omitempty"` // keystore selector
+	N        int    `json:"n,omitempty"` // number of addresses / key selector
 	Internal bool   `json:"int,omitempty"`
 	PC       string `json:"pc,omitempty"` // passphrase class of the main passphrase argument
 	NPC      string `json:"npc,omitempty"`
@@ -159,7 +161,7 @@ var passAlphabet = []byte("0123456789abcdefghijklmnopqrstuvwxyzABCDEFGHIJKLMNOPQ
 
 // FreshPass returns a well-formed 24-character passphrase that cannot occur by accident.
 func FreshPass(r *vh.Rng) []byte {
-	b := make([]byte, 24)
+	b := make([]byte, r.Range(12, 40)) // lengths vary: code that copies a passphrase into a buffer of the old length must show
 	for i := range b {
 		b[i] = passAlphabet[r.Intn(len(passAlphabet))]
 	}
@@ -221,6 +223,18 @@ func (e *Env) front() Front {
 	return e.Front(e.W)
 }
 
+// LeadingZeroSeed searches a 32-byte seed whose BIP32 master private key has a leading zero byte.
+func LeadingZeroSeed(r *vh.Rng) []byte {
+	for {
+		seed := r.Bytes(32)
+		m := hmac.New(sha512.New, []byte("Bitcoin seed"))
+		m.Write(seed)
+		if m.Sum(nil)[0] == 0 {
+			return seed
+		}
+	}
+}
+
 // pass resolves a passphrase class against the model.
 func (e *Env) pass(class string) ([]byte, string) {
 	m := e.M
@@ -246,6 +260,16 @@ func (e *Env) pass(class string) ([]byte, string) {
 		return []byte{}, "empty"
 	case "cur1":
 		if m.Priv != nil {
+			if len(m.Priv) >= 40 { // one character different instead of one more (40 is the longest legal passphrase)
+				p := append([]byte{}, m.Priv...)
+				p[len(p)-1] ^= 1
+				if !keystore.ValidatePassphrase(p) {
+					p[len(p)-1] = 'x'
+				}
+				if !bytes.Equal(p, m.Priv) {
+					return p, "cur1"
+				}
+			}
 			return append(append([]byte{}, m.Priv...), 'x'), "cur1"
 		}
 		return FreshPass(e.Rng), "other"
@@ -287,6 +311,14 @@ func (e *Env) Do(op Op) Res {
 				seed = e.Rng.Bytes(32)
 				op.SeedKind = "fresh"
 			}
+		case "revive":
+			// the seed of a keystore that was deleted earlier: creating it again is legitimate and must start from scratch
+			if len(m.Deleted) > 0 {
+				seed = m.Deleted[e.Rng.Intn(len(m.Deleted))]
+			} else {
+				seed = e.Rng.Bytes(32)
+				op.SeedKind = "fresh"
+			}
 		case "short":
 			seed = e.Rng.Bytes(e.Rng.PickI(1, 16, 31, 33, 64))
 		case "empty":
@@ -294,6 +326,13 @@ func (e *Env) Do(op Op) Res {
 		default:
 			seed = e.Rng.Bytes(32)
 			op.SeedKind = "fresh"
+			if e.Rng.Chance(1, 4) {
+				// a seed whose BIP32 master scalar starts with a zero byte (1 in 256 in the wild): the stored
+				// extended keys of such a wallet have leading zeros, which parsing/serialising code likes to mangle
+				seed = LeadingZeroSeed(e.Rng)
+				op.SeedKind = "fresh-leading-zero-master"
+				e.Run.Count("keystores_with_leading_zero_master_scalar", 1)
+			}
 		}
 		e.Trace[len(e.Trace)-1] += fmt.Sprintf(" seed=%s pass=%s(%s)", hex.EncodeToString(seed), pass, pc)
 		id, err := w.M.NewKeystore(pass, seed, op.Remark, Net(), FastScrypt)
@@ -498,6 +537,9 @@ func (e *Env) Do(op Op) Res {
 			}
 			if pc != "cur" {
 				e.Report([]string{"C03"}, "delete-with-non-current-passphrase-accepted", map[string]string{"pass_class": pc}, nil)
+			}
+			if k.Seed != nil {
+				m.Deleted = append(m.Deleted, k.Seed)
 			}
 			// the keystore's identity ends here: re-creating it from the same seed legitimately starts at index 0 again
 			for pub, owner := range m.Issued {
@@ -998,6 +1040,76 @@ func TrueKeysOf(store db.DB, id string, pub, priv []byte) (*TrueKeys, error) {
 	return t, nil
 }
 
+// OpenedWithoutPrivate tries to open every private blob of keystore id (and of the exported file js, if given)
+// WITHOUT the private passphrase: with the all-zero key, with the scrypt key of the public passphrase and with the
+// public crypto key. It returns a description of everything that opened.
+func OpenedWithoutPrivate(store db.DB, id string, pub []byte, js []byte) []string {
+	var out []string
+	kv, err := readKs(store, id)
+	if err != nil {
+		return nil
+	}
+	keys := map[string]*snacl.CryptoKey{"all-zero-key": {}}
+	var mpub snacl.SecretKey
+	if mpub.Unmarshal(kv["mpub"]) == nil && mpub.DeriveKey(&pub) == nil {
+		k := *mpub.Key
+		keys["scrypt-key-of-public-passphrase"] = &k
+		if cp, err := mpub.Decrypt(kv["cpub"]); err == nil && len(cp) == 32 {
+			var ck snacl.CryptoKey
+			copy(ck[:], cp)
+			keys["public-crypto-key"] = &ck
+		}
+	}
+	blobs := map[string][]byte{"store:cpriv": kv["cpriv"], "store:mhdpriv": kv["mhdpriv"]}
+	// account row: <type><len><encpub><len><encpriv>
+	for name, v := range kv {
+		if len(name) == 4 && len(v) > 9 { // account number key (uint32) -> serialized account row
+			raw := v
+			if len(raw) > 5 {
+				raw = raw[5:] // acctType + rawData length
+			}
+			if len(raw) > 4 {
+				pl := int(uint32(raw[0]) | uint32(raw[1])<<8 | uint32(raw[2])<<16 | uint32(raw[3])<<24)
+				if 4+pl+4 <= len(raw) {
+					rest := raw[4+pl:]
+					ql := int(uint32(rest[0]) | uint32(rest[1])<<8 | uint32(rest[2])<<16 | uint32(rest[3])<<24)
+					if 4+ql <= len(rest) {
+						blobs["store:account-private-key"] = rest[4 : 4+ql]
+					}
+				}
+			}
+		}
+	}
+	if js != nil {
+		var f struct {
+			Crypto struct {
+				M string `json:"masterHDPrivKeyEnc"`
+				C string `json:"cryptoKeyPrivEnc"`
+			} `json:"crypto"`
+		}
+		if json.Unmarshal(js, &f) == nil {
+			if b, err := hex.DecodeString(f.Crypto.M); err == nil {
+				blobs["export:masterHDPrivKeyEnc"] = b
+			}
+			if b, err := hex.DecodeString(f.Crypto.C); err == nil {
+				blobs["export:cryptoKeyPrivEnc"] = b
+			}
+		}
+	}
+	for bn, blob := range blobs {
+		if len(blob) == 0 {
+			continue
+		}
+		for kn, k := range keys {
+			if _, err := k.Decrypt(blob); err == nil {
+				out = append(out, bn+" opens with "+kn)
+			}
+		}
+	}
+	sort.Strings(out)
+	return out
+}
+
 // inspect applies the locked-memory invariant of C03 through the H4 inspector.
 func (e *Env) inspect(res Res) {
 	unlocked, views := e.W.M.VerifInspect()
@@ -1192,6 +1304,21 @@ func (e *Env) scan(res Res) {
 				e.Report([]string{"C04"}, "secret-in-clear", map[string]string{"secret": strings.SplitN(sname, ":", 2)[0], "encoding": encOf(sname), "where": where}, map[string]interface{}{"file": fname, "secret": sname, "after": res.Op.Kind})
 			}
 		}
+	}
+	// "private key material can be recovered only with the private passphrase": try without it
+	for _, id := range e.M.Order {
+		var js []byte
+		for i := len(e.M.Exports) - 1; i >= 0; i-- {
+			if e.M.Exports[i].ID == id {
+				js = e.M.Exports[i].JSON
+				break
+			}
+		}
+		for _, what := range OpenedWithoutPrivate(e.W.Raw, id, e.M.Pub, js) {
+			parts := strings.SplitN(what, " opens with ", 2)
+			e.Report([]string{"C04"}, "private-material-opens-without-private-passphrase", map[string]string{"blob": parts[0], "key": parts[1]}, map[string]interface{}{"keystore": id, "after": res.Op.Kind})
+		}
+		e.Run.Count("recover_without_private_passphrase_attempts", 1)
 	}
 	e.Run.Count("scans", 1)
 	e.Run.Count("scan_needles", int64(len(secrets)))
